@@ -48,6 +48,31 @@ theorem oracle_guards_pinned : Irismod.Gen.PureOracle.guards =
      "msgServer.StartFeed: err := m.Keeper.StartFeed(ctx, msg); err != nil",
      "msgServer.PauseFeed: err := m.Keeper.PauseFeed(ctx, msg); err != nil"] := rfl
 
+/-- every statement of these functions executed for its effect — a call whose result is dropped (store and bank
+writes, queue moves, hooks) or a write to a record field — with its nesting depth, in source order: a write that is
+dropped, duplicated, reordered or moved into or out of a branch breaks this -/
+theorem oracle_effects_pinned : Irismod.Gen.PureOracle.effects =
+    ["SetFeedValue: d0 k.deleteOldestFeedValue(ctx, feedName, delta+1)",
+     "SetFeedValue: d0 store.Set(types.GetFeedValueKey(feedName, batchCounter), bz)",
+     "EditFeed: d2 k.deleteOldestFeedValue(ctx, feed.FeedName, cnt-expectCnt)",
+     "EditFeed: d1 feed.LatestHistory = msg.LatestHistory",
+     "EditFeed: d1 feed.Description = msg.Description",
+     "EditFeed: d0 k.SetFeed(ctx, feed)",
+     "Keeper.dequeueAndEnqueue: d0 store.Delete(types.GetFeedStateKey(feedName, dequeueState))",
+     "Keeper.dequeueAndEnqueue: d0 store.Set(types.GetFeedStateKey(feedName, enqueueState), bz)",
+     "Keeper.SetFeed: d0 store.Set(types.GetFeedKey(feed.FeedName), bz)",
+     "Keeper.SetFeed: d0 store.Set(types.GetReqCtxIDKey(requestContextID), bz)",
+     "Keeper.deleteOldestFeedValue: d0 iterator.Next()",
+     "Keeper.deleteOldestFeedValue: d1 store.Delete(iterator.Key())",
+     "Keeper.Enqueue: d0 store.Set(types.GetFeedStateKey(feedName, state), bz)",
+     "Keeper.Dequeue: d0 store.Delete(types.GetFeedStateKey(feedName, state))",
+     "Keeper.CreateFeed: d0 k.SetFeed(ctx, types.Feed{ FeedName: msg.FeedName, AggregateFunc: msg.AggregateFunc, ValueJsonPath: msg.ValueJsonPath, LatestHistory: msg.LatestHistory, RequestContextID: requestContextID.String(), Description: msg.Description, Creator: msg.Creator, })",
+     "Keeper.CreateFeed: d0 k.Enqueue(ctx, msg.FeedName, serviceexported.PAUSED)",
+     "Keeper.StartFeed: d0 k.dequeueAndEnqueue(ctx, msg.FeedName, serviceexported.PAUSED, serviceexported.RUNNING)",
+     "Keeper.PauseFeed: d0 k.dequeueAndEnqueue(ctx, msg.FeedName, serviceexported.RUNNING, serviceexported.PAUSED)",
+     "Keeper.HandlerResponse: d0 k.SetFeedValue(ctx, feed.FeedName, reqCtx.BatchCounter, feed.LatestHistory, value)",
+     "Keeper.HandlerStateChanged: d0 k.dequeueAndEnqueue(ctx, feed.FeedName, oldState, reqCtx.State)"] := rfl
+
 private theorem wrap_id' (x : Int) (h : -9223372036854775808 ≤ x ∧ x < 9223372036854775808) : I64_wrap x = x := by
   unfold I64_wrap
   have e : (x + 9223372036854775808).emod 18446744073709551616 = x + 9223372036854775808 :=
